@@ -426,7 +426,11 @@ theorem C03_known_on_wire_partial (unscopes : Bool → Bool) {reg : Registry} (h
     rw [hk] at hs hc
     exact ⟨hs, hc⟩
 
-/-- the working tree is one of the two (whichever: the statement builds on both) -/
+/-- the working tree is one of the two — **whichever**: this is a disjunction that is true of a tree with and of a tree without the
+repair, it does not say which one `/repo` is.  That `/repo` (7c87afc and later) is the repaired one rests on the two translated leaves
+(`own_known_unscoped`: the test `msg.scope_id is not None` exists in `async_response`; `own_known_passed`: `own_known_answers` is an
+argument of the `_answer_question` call — they pin neither the body of `_without_scope_id` nor how `own_known_answers` is built) and
+on stream 1 of the harness, which parses queries with scope ids None / 3 / 0 and diffs the replies against `respondQ treeUnscopes`. -/
 theorem C03_tree_unscopes : (∀ b, treeUnscopes b = b) ∨ (∀ b, treeUnscopes b = false) := by
   first
     | (left; intro b; cases b <;> rfl)
@@ -538,7 +542,16 @@ theorem C03_transmitted_current_refuted : ¬ C03_transmitted_current id 4500 := 
 * attribute writes come as `update`, as in `C03_transmitted_current`)
 every datagram ever sent consists of records of services registered at that instant.  The proof shows that the records
 `async_unregister_service` purges (`purgeMap`: PTR, SRV, TXT, and the address/NSEC set of an unshared host) are gone from every
-pending reply — without the D5 purge the theorem is false.  Missing for full strength: exactly the three recorded findings. -/
+pending reply — without the D5 purge the theorem is false.
+**What the hypothesis excludes, precisely** (it is *not* just the complement of the three findings): (1) the input classes of D20,
+D20b and D20c, operation by operation; (2) **every history that contains an attribute write** (`changeOk (.mutate …) = false`: in this
+layer a write followed by `async_update_service` has to be given as one `update` with the new fields — a reply computed *between* a
+write and its update, from a stale memo, is not covered); (3) nothing else — but the layer itself is narrower than the code in one
+more respect: `HostOp.unregister` carries keys and `RHost.unregisterOne` purges the **registered** object's records, i.e. the call
+through the registered object or an equal copy; `async_unregister_service` handed a `ServiceInfo` whose records differ purges and says
+goodbye with the handle's records (finding R3-C03-a), which this model cannot express.  No harness drives this layer (`RHost`): it
+is an abstraction of the two multicast queues, tied to the code only by the comparison of its ingredients (`respond`, `packetize`,
+the registry) in stream 1; the implementation's datagrams around an update/unregister are judged by the oracle directly. -/
 theorem C03_transmitted_current_partial (ops : List HostOp) (hq : noSupersededReplyQueued lower ettl {} ops = true) :
     ∀ o ∈ (RHost.run lower ettl ops).2, Sent.current lower ettl o = true :=
   runFrom_spec lower ettl ops (PendInv.init lower ettl) hq
@@ -571,6 +584,17 @@ example :
         .api (.unregister ["y._b._tcp.local."]), .transmit] = false := by decide
 
 /-! ## Tie: the source of `_services/registry.py`, translated statement by statement on every run
+
+**What "translated" covers, precisely** (`tools/fnspecs/_common.py`, spec type `Svc`): control flow, dict/list operations and their
+raise sites (`KeyError`, `ValueError`, `ServiceNameAlreadyRegistered`) are translated from the method bodies; four things about the
+`ServiceInfo` argument are *substituted*, not translated: `info.key` ↦ `lower info.name`, `info.server_key` ↦ `lower info.server`,
+`info.async_clear_cache()` ↦ `Svc.clearMemo`, and — because `Svc.server` is a `String` — the two statements
+`assert info.server_key is not None` of `_add` / `_remove` ↦ `pyAssert true` (they can never fail in the generated functions).  So the
+equation below is about `ServiceInfo` objects whose `key` / `server_key` are what `ServiceInfo.__init__` derives (`name.lower()`,
+`server.lower()`) and that have a server: a `server_key` that is not `server.lower()` (seeded defect C03-w4-seed2) or a server-less
+object reaching `registry.async_update` (which raises *after* `_remove`, leaving the removed state — whereas `gstep` keeps the state
+before a call that raises) are invisible to `C03_registry_is_source` by construction; both are the harness's (stream 1 compares
+`server_key`-keyed dumps; the API path of the second is repaired by 55cb5cf, D26).
 
 `Zc.GenFn.Registry` is regenerated from the *bodies* of all methods of `ServiceRegistry` (`tools/gen_fn.py`);
 `GenFacts/FnRegistry.lean` proves, method by method and under the representation invariant `RInv` (which every mutator
